@@ -34,21 +34,35 @@ static parsec_flow_t fl_t[4] = {
 static parsec_flow_t fl_mem  = { .flow_flags = PARSEC_FLOW_ACCESS_RW|PARSEC_FLOW_HAS_IN_DEPS, .flow_index = 4, .dep_in = { &d_mem } };
 static parsec_flow_t fl_ctl  = { .flow_flags = PARSEC_FLOW_ACCESS_NONE, .flow_index = 5, .dep_in = { &d_gctl } };
 static parsec_flow_t fl_wo   = { .flow_flags = PARSEC_FLOW_ACCESS_WRITE|PARSEC_FLOW_HAS_IN_DEPS, .flow_index = 6, .dep_in = { NULL } };
+/* first-match rule: a guarded task dependency followed by an unguarded memory dependency (bit 7): the flow is fed by the
+ * task when the guard holds (the memory dependency must then NOT count it as satisfied), from memory otherwise */
+static int guard2;
+static int f_guard2(const parsec_taskpool_t *t, const parsec_assignment_t *l){ (void)t;(void)l; return guard2; }
+static parsec_expr_t e_guard2 = { .op = PARSEC_EXPR_OP_INLINE, .u_expr.v_func.func.inline_func_int32 = (parsec_expr_op_int32_inline_func_t)f_guard2 };
+static parsec_dep_t d_gtask2 = { .cond = &e_guard2, .task_class_id = 1 };
+static parsec_flow_t fl_gm   = { .flow_flags = PARSEC_FLOW_ACCESS_RW|PARSEC_FLOW_HAS_IN_DEPS, .flow_index = 7, .dep_in = { &d_gtask2, &d_mem } };
+static int ready_gm;
 
-static void *rel(void *a){ int i = (int)(long)a; ready[i] = parsec_update_deps_with_mask(&tp,&task,&deps,&origin,&fl_t[i],&fl_t[i]); return 0; }
+static int with_in_g;
+static void *rel(void *a){ int i = (int)(long)a; ready[i] = parsec_update_deps_with_mask(&tp,&task,&deps,&origin,&fl_t[i],&fl_t[i]);
+    /* thread 0 also delivers the guarded flow's input when its producer is a task */
+    if(i == 0 && with_in_g && guard2) ready_gm = parsec_update_deps_with_mask(&tp,&task,&deps,&origin,&fl_gm,&fl_gm);
+    return 0; }
 
 int main(void)
 {
     int k = IN_INT(); VASSUME(k>=1 && k<=NT);
     guard = IN_INT(); VASSUME(guard==0 || guard==1);
     int with_in = IN_INT(); VASSUME(with_in==0 || with_in==1);
+    guard2 = IN_INT(); VASSUME(guard2==0 || guard2==1);
+    with_in_g = with_in;
     parsec_dependency_t goal = 0;
     int i;
     for(i=0;i<NT;i++){ tc.in[i]=&fl_t[i]; goal |= 1u<<i; }
     if(with_in){
         tc.flags = PARSEC_USE_DEPS_MASK | PARSEC_HAS_IN_IN_DEPENDENCIES;
-        tc.in[NT]=&fl_mem; tc.in[NT+1]=&fl_ctl; tc.in[NT+2]=&fl_wo; tc.in[NT+3]=NULL;
-        goal |= (1u<<4)|(1u<<6);
+        tc.in[NT]=&fl_mem; tc.in[NT+1]=&fl_ctl; tc.in[NT+2]=&fl_wo; tc.in[NT+3]=&fl_gm; tc.in[NT+4]=NULL;
+        goal |= (1u<<4)|(1u<<6)|(1u<<7);
         /* the control flow is expected iff its guard is true; when the guard is false
          * the runtime must count it as satisfied.  ptgpp puts the bit in the goal. */
         goal |= (1u<<5);
@@ -61,10 +75,13 @@ int main(void)
     for(long j=0;j<NT;j++) if(j<k) pthread_create(&t[j],0,rel,(void*)j);
     for(long j=0;j<NT;j++) if(j<k) pthread_join(t[j],0);
     int s=0; for(i=0;i<NT;i++) if(i<k) s+=ready[i];
+    s += ready_gm;
     /* with a true guard the control input (bit 5) never arrives in this scenario */
     int complete = (k==NT) && !(with_in && guard);
     VASSERTM(s == complete, "ready reported exactly once iff every task-fed input arrived (mask mode)");
     if(complete && with_in) VWITNESS("mask complete incl. memory-fed bits");
+    if(complete && with_in && guard2) VWITNESS("guarded task input before a memory input: delivered by the task");
+    if(complete && with_in && !guard2) VWITNESS("guarded task input before a memory input: read from memory");
     if(!complete && k>=2) VWITNESS("incomplete mask");
     return 0;
 }
